@@ -125,7 +125,12 @@ class Collector:
         for b in batches:
             bb = {k: v for k, v in b.items() if k != "raw"}
             self.items.append((run, None, [bb]))
-        self.summaries.append({"run": run.name, "threads": len(order), "events": len(run.events),
+        un = info.get("unattributed") or []
+        if un:
+            lst = self.chk.extra.setdefault("strace_records_unattributed", [])
+            if len(lst) < 20:
+                lst.append({"run": run.name, "count": len(un), "first": un[0]})
+        self.summaries.append({"run": run.name, "threads": len(order), "events": len(run.events), "unattributed": len(un),
                                "wall_s": round(run.wall, 2), "inject": run.inject,
                                "strace": run.strace is not None, "stray_wakes": info["stray"],
                                "batches": [{k: b[k] for k in ("n", "left", "left_n", "panicked", "growth", "threads", "stacks")} for b in batches]})
